@@ -23,6 +23,8 @@ namespace sqf::parser::assembly
     class parser : public ::sqf::runtime::parser::sqf, public CanLog
     {
     private:
+        // set when a diagnostic of the translation was reported: the text yields no instructions then
+        bool m_failed = false;
         ::sqf::runtime::value get_value(::sqf::runtime::runtime& runtime, std::string_view contents, const ::sqf::parser::assembly::bison::astnode& node);
         void to_assembly(::sqf::runtime::runtime& runtime, std::string_view contents, const ::sqf::parser::assembly::bison::astnode& node, std::vector<::sqf::runtime::instruction::sptr>& set);
     public:
@@ -33,6 +35,7 @@ namespace sqf::parser::assembly
         {
             log(msg);
         }
+        void __failed() { m_failed = true; }
         bool get_tree(::sqf::runtime::runtime& runtime, tokenizer& t, bison::astnode* out);
         virtual ~parser() override { };
         virtual bool check_syntax(::sqf::runtime::runtime& runtime, std::string contents, ::sqf::runtime::fileio::pathinfo file) override;
